@@ -111,6 +111,85 @@ Theorem C07_mixed_dom_same_file :
 Proof. exact mixed_dom_same_file. Qed.
 
 
+(* ==== binary: the file does not depend on the Ref values (Proofs/BinRename.v): for every database whose default values hold no non-null
+   Ref (an executable check the bundled database passes; without it the statement is false: C07_rename_needs_null_defaults), any
+   renaming of Refs that fixes the null Ref and is injective on the Refs of the DOM leaves encode_chunks / encode_file unchanged —
+   including error outcomes; combined with the property-listing theorem: the file is a function of the logical content *)
+From RbxVerif Require Import Database XmlDeterminism BinRename.
+Open Scope N_scope.
+
+Theorem C07_bin_encode_chunks_rename :
+  forall (phi : N -> N) (d : db) (p : enc_params) (dom : cdom) (roots : list N),
+       db_defaults_null d = true ->
+       phi 0 = 0 ->
+       injective_on (bin_dom_refs dom roots) phi ->
+       encode_chunks d p (rename_dom phi dom) (List.map phi roots) = encode_chunks d p dom roots.
+Proof. exact bin_encode_chunks_rename. Qed.
+
+Theorem C07_bin_encode_file_rename :
+  forall (phi : N -> N) (d : db) (p : enc_params) (cmp : compression) (dom : cdom) (roots : list N),
+       db_defaults_null d = true ->
+       phi 0 = 0 ->
+       injective_on (bin_dom_refs dom roots) phi ->
+       encode_file d p cmp (rename_dom phi dom) (List.map phi roots) = encode_file d p cmp dom roots.
+Proof. exact bin_encode_file_rename. Qed.
+
+Theorem C07_bin_encode_chunks_rename_gen :
+  forall (phi : N -> N) (d : db) (p : enc_params) (dom : cdom) (roots : list N),
+       phi 0 = 0 ->
+       injective_on (bin_dom_refs dom roots ++ db_default_refs d) phi ->
+       (forall r : N, In r (db_default_refs d) -> phi r = r) ->
+       encode_chunks d p (rename_dom phi dom) (List.map phi roots) = encode_chunks d p dom roots.
+Proof. exact bin_encode_chunks_rename_gen. Qed.
+
+Theorem C07_bundled_defaults_null :
+  db_defaults_null database = true.
+Proof. exact bundled_defaults_null. Qed.
+
+Theorem C07_bin_encode_file_rename_bundled :
+  forall (phi : N -> N) (p : enc_params) (cmp : compression) (dom : cdom) (roots : list N),
+       phi 0 = 0 ->
+       injective_on (bin_dom_refs dom roots) phi ->
+       encode_file database p cmp (rename_dom phi dom) (List.map phi roots) =
+       encode_file database p cmp dom roots.
+Proof. exact bin_encode_file_rename_bundled. Qed.
+
+Theorem C07_encode_file_function_of_content :
+  forall (phi : N -> N) (d : db) (p : enc_params) (cmp : compression) (dom dom' : list inst)
+         (roots : list N) (b : bytes),
+       Forall2 inst_perm dom dom' ->
+       (forall i : inst, In i dom -> NoDup (List.map fst (i_props i))) ->
+       dom_agree d dom ->
+       dom_one_spelling d dom ->
+       (forall l : list bytes, Permutation.Permutation (ep_order p l) l) ->
+       hash_inj (ep_hash p) ->
+       db_defaults_null d = true ->
+       phi 0 = 0 ->
+       injective_on (bin_dom_refs dom roots) phi ->
+       encode_file d p cmp (rename_dom phi dom') (List.map phi roots) = Ok b <->
+       encode_file d p cmp dom roots = Ok b.
+Proof. exact encode_file_function_of_content. Qed.
+
+Theorem C07_rename_needs_null_defaults :
+  db_defaults_null db_refdef = false /\
+       phi_refdef 0 = 0 /\
+       (forall a b : N, In a [0; 7; 9] -> In b [0; 7; 9] -> phi_refdef a = phi_refdef b -> a = b) /\
+       encode_file db_refdef ep0 None (rename_dom phi_refdef d_refdef) (List.map phi_refdef [7; 9]) <>
+       encode_file db_refdef ep0 None d_refdef [7; 9].
+Proof. exact rename_needs_null_defaults. Qed.
+
+Theorem C07_bin_rename_needs_injectivity :
+  encode_file db0 ep0 None (rename_dom (fun r : N => if r =? 55 then 9 else r) d_bin) [7] <>
+       encode_file db0 ep0 None d_bin [7].
+Proof. exact bin_rename_needs_injectivity. Qed.
+
+Theorem C07_bin_rename_needs_null_fixed :
+  (forall a b : N, swap05 a = swap05 b -> a = b) /\
+       encode_file db0 ep0 None (rename_dom swap05 d_null) (List.map swap05 [5]) <>
+       encode_file db0 ep0 None d_null [5].
+Proof. exact bin_rename_needs_null_fixed. Qed.
+
+
 (* ==== XML: the document is a function of the logical content (Proofs/XmlDeterminism.v).  The serializer sorts an instance's
    properties by name, so any listing (hash iteration order) of the same property map gives the same document; referent numbers are
    assigned by order of first use, so any injective renaming of the Ref values that fixes the null Ref gives the same document;
